@@ -89,7 +89,7 @@ TClientSend ==
      /\ pend' = pend \o SelectSeq(rr.out, LAMBDA o : o.k = "resp")
      /\ pendD' = AddDiags(pendD, rr.out)
   /\ ds' = ds + 1
-  /\ UNCHANGED <<closed, rphase, rwait, docq, ioq, docs, lastD, status, ok, r, b, w>>
+  /\ UNCHANGED <<closed, rphase, rwait, docq, ioq, docs, lastD, limbo, status, ok, r, b, w>>
 
 \* --- reader
 \* which R event completes the model's ReaderStep for the message at the head of the pipe?
@@ -171,7 +171,7 @@ TReset ==
   /\ rphase' = "uninit" /\ rwait' = Idle /\ docq' = <<>> /\ ioq' = <<>>
   /\ docs' = [k \in Keys |-> NoDoc]
   /\ pend' = <<>> /\ pendD' = [u \in URIs |-> <<>>] /\ lastD' = [u \in URIs |-> NoDoc]
-  /\ status' = None /\ ok' = TRUE
+  /\ limbo' = {} /\ status' = None /\ ok' = TRUE
   /\ r' = r + 1 /\ b' = b + 1 /\ w' = w + 1 /\ ds' = ds + 1
 
 TNext == TClientSend \/ TRecvStep \/ TRecvOnly \/ TRespond \/ TBroker \/ TWrite \/ TReset
